@@ -99,6 +99,8 @@ AlignBlock(d, a, p) == d \o PatBlock(p, Align(Len(d), a) - Len(d))
 \* ------------------------------------------------------------------ byte order
 RevInLongs(b) == [i \in 1..Len(b) |-> b[((i - 1) \div 4) * 4 + 4 - ((i - 1) % 4)]]      \* Len(b) % 4 = 0
 SwapPairs(b) == [i \in 1..Len(b) |-> IF i % 2 = 1 THEN b[i + 1] ELSE b[i - 1]]          \* Len(b) % 2 = 0
+\* the only length-preserving involution that exchanges the bytes of every complete pair: a trailing single byte stays where it is
+SwapPairsAny(b) == [i \in 1..Len(b) |-> IF i % 2 = 0 THEN b[i - 1] ELSE IF i = Len(b) THEN b[i] ELSE b[i + 1]]
 RevBits(bits) == RevSeq(bits)                                                           \* bit list, index 1 = msb
 
 \* ------------------------------------------------------------------ widths
@@ -165,7 +167,9 @@ Expected(fn, a) ==
     [] fn = "rev_longs"          -> IF Len(a.b) % 4 # 0 THEN Err ELSE Ret(RevInLongs(a.b))
     [] fn = "change_endianness"  -> IF Len(a.b) = 1 THEN Ret(a.b) ELSE IF Len(a.b) = 2 THEN Ret(RevSeq(a.b))
                                     ELSE IF Len(a.b) % 4 # 0 THEN Err ELSE Ret(RevInLongs(a.b))
-    [] fn = "swap_bytes"         -> Ret(SwapPairs(a.b))
+    \* an odd length: the documentation does not say whether that is invalid input. What the contract does say: a byte-order helper is an
+    \* involution and never gives the input another meaning - so the call is refused (in whatever way), or answers the one value that keeps both
+    [] fn = "swap_bytes"         -> IF Len(a.b) % 2 = 0 THEN Ret(SwapPairs(a.b)) ELSE [k |-> "noalt", v |-> SwapPairsAny(a.b)]
     [] fn = "bcd_version"        -> BcdVersion(a.parts)
     [] fn = "blk_is_aligned"     -> Ret(a.n % 16 = 0)
     [] fn = "blk_align"          -> Ret(Align(a.n, 16))
@@ -178,4 +182,5 @@ Conforms(o) ==
   IN CASE e.k = "ret" -> o.out.k = "ret" /\ o.out.v = e.v
        [] e.k = "err" -> o.out.k = "err"
        [] e.k = "any" -> o.out.k = "err" \/ (o.out.k = "ret" /\ o.out.v = e.v)
+       [] e.k = "noalt" -> o.out.k \in {"err", "exc"} \/ (o.out.k = "ret" /\ o.out.v = e.v)
 =============================================================================
